@@ -6,6 +6,7 @@ mod gen;
 mod model;
 mod observe;
 mod props;
+mod refimpl;
 mod runner;
 mod scan;
 mod worker;
